@@ -1,10 +1,14 @@
-"""E4: on-demand interval + difference-bound evaluation over one function's MIR, used only to DISCHARGE panic sites
-(Assert terminators, slice range indexing) inside explicitly enumerated scopes.
+"""E4: on-demand interval + linear (difference-bound) evaluation over one function's MIR, used only to DISCHARGE panic
+sites (Assert terminators, slice range indexing, try_into().unwrap()) inside explicitly enumerated scopes.
 
-A value is described by an interval [lo, hi] and optionally a symbolic form atom + off where atom is
-('loc', root_local) or ('len', root_local_of_slice).  Facts come from (a) definitions (constants, casts, arithmetic,
-bit operations, integer types), (b) the branch conditions that dominate the use site through exactly one arm.
-Mutable roots are handled by requiring that no definition of the root lies between the dominating condition and the use."""
+A value is an interval [lo, hi] plus an optional linear form  sum(coeff*atom) + off  over atoms:
+  ('len', root)            length of the slice/vec referenced by `root`
+  ('sizeof', T)            std::mem::size_of::<T>()
+  ('ver', root, where)     SSA-style version of a mutable cursor (`pos` local or `*offset`), resolved by dominance:
+                           the nearest dominating store, a phi at an iterated-dominance-frontier block, or the initial value
+  ('loc', l)               an opaque single-assignment value (call result, unknown)
+Facts: definitions (constants, casts, arithmetic, bit operations, integer type ranges) and the branch conditions that dominate
+the use site through exactly one arm.  Anything the engine cannot bound stays undischarged (never assumed)."""
 import re
 from model import operand_place, place_fields
 
@@ -12,18 +16,27 @@ TY = {"u8": (0, 2**8 - 1), "u16": (0, 2**16 - 1), "u32": (0, 2**32 - 1), "u64": 
       "u128": (0, 2**128 - 1), "i8": (-2**7, 2**7 - 1), "i16": (-2**15, 2**15 - 1), "i32": (-2**31, 2**31 - 1),
       "i64": (-2**63, 2**63 - 1), "isize": (-2**63, 2**63 - 1), "i128": (-2**127, 2**127 - 1), "bool": (0, 1), "char": (0, 0x10FFFF)}
 LEN_MAX = 2**63 - 1
+INF = 10**40
 
 
 class AV:
-    __slots__ = ("lo", "hi", "atom", "off")
+    __slots__ = ("lo", "hi", "lin", "off")
 
-    def __init__(self, lo, hi, atom=None, off=0):
-        self.lo, self.hi, self.atom, self.off = lo, hi, atom, off
+    def __init__(self, lo, hi, lin=None, off=0):
+        self.lo, self.hi, self.lin, self.off = lo, hi, lin, off
+
+    @property
+    def atom(self):
+        if self.lin and len(self.lin) == 1:
+            (a, c), = self.lin.items()
+            if c == 1:
+                return a
+        return None
 
     def __repr__(self):
-        s = "[%s,%s]" % (self.lo, self.hi)
-        if self.atom:
-            s += "=%s%+d" % (self.atom, self.off)
+        s = "[%s,%s]" % (self.lo if self.lo > -INF else "-inf", self.hi if self.hi < INF else "inf")
+        if self.lin:
+            s += "=" + "+".join("%s%s" % ("" if c == 1 else "%d*" % c, a[0] + str(a[1:2])) for a, c in self.lin.items()) + "%+d" % self.off
         return s
 
 
@@ -31,25 +44,156 @@ def ty_range(t):
     return TY.get(t)
 
 
+def lin_add(a, b, sign=1):
+    out = dict(a or {})
+    for k, c in (b or {}).items():
+        out[k] = out.get(k, 0) + sign * c
+        if out[k] == 0:
+            del out[k]
+    return out
+
+
 class Eval:
     def __init__(self, f):
         self.f = f
         self.defs = f.defs()
         self._memo = {}
+        self._idom = None
+        self._phis = {}
+        self._stores = {}
 
-    # ---------- structural value ----------
-    def op_ty(self, op):
-        if op[0] == "k":
-            return op[2]
-        pl = operand_place(op)
-        if pl is None:
-            return None
-        if not pl[1]:
-            return self.f.locals[pl[0]]
-        return None
+    # ---------- dominator tree / phi placement ----------
+    def idom(self):
+        if self._idom is None:
+            dom = self.f.dominators()
+            idom = {}
+            for b, ds in dom.items():
+                best = None
+                for d in ds:
+                    if d == b:
+                        continue
+                    if best is None or len(dom[d]) > len(dom[best]):
+                        best = d
+                idom[b] = best
+            self._idom = idom
+        return self._idom
 
-    def value(self, op, depth=14, at=None):
-        """AV from definitions only (no path conditions)"""
+    def dom_frontier(self):
+        key = "DF"
+        if key in self._memo:
+            return self._memo[key]
+        f = self.f
+        idom = self.idom()
+        df = {b: set() for b in idom}
+        preds = f.preds()
+        for b in idom:
+            ps = [p for p in preds[b] if p in idom]
+            if len(ps) >= 2:
+                for p in ps:
+                    r = p
+                    while r is not None and r != idom[b]:
+                        df[r].add(b)
+                        r = idom.get(r)
+        self._memo[key] = df
+        return df
+
+    def root_stores(self, root):
+        """definition sites of a mutable root: list of (bb, idx, kind, payload); idx = 10**6 for terminator-level defs"""
+        if root in self._stores:
+            return self._stores[root]
+        f = self.f
+        out = []
+        if root[0] == "local":
+            l = root[1]
+            for d in self.defs.get(l, []):
+                if d[0] == "stmt":
+                    out.append((d[1], d[2], "rv", d[3]))
+                else:
+                    out.append((d[1], 10**6, "call", d[2]))
+        else:  # ('deref', l): stores through (*alias) and calls receiving the &mut
+            l = root[1]
+            alias = {l}
+            changed = True
+            while changed:
+                changed = False
+                for l2, ds in self.defs.items():
+                    if l2 in alias:
+                        continue
+                    for d in ds:
+                        if d[0] == "stmt" and d[3][0] in ("use", "ref", "ptr", "cast"):
+                            src = operand_place(d[3][1]) if d[3][0] == "use" else d[3][2] if d[3][0] in ("ref", "ptr") else operand_place(d[3][2])
+                            if src is not None and src[0] in alias and src[1] in ([], ["*"]) and f.locals[l2].startswith("&mut"):
+                                alias.add(l2)
+                                changed = True
+            for bb, b in enumerate(f.blocks):
+                for i, s_ in enumerate(b["s"]):
+                    if s_[0] == "=" and s_[1][0] in alias and s_[1][1] == ["*"]:
+                        out.append((bb, i, "rv", s_[2]))
+                t = b["t"]
+                if t[0] == "call":
+                    for a in t[2]:
+                        pl = operand_place(a)
+                        if pl is not None and pl[0] in alias and not pl[1] and f.locals[pl[0]].startswith("&mut"):
+                            out.append((bb, 10**6, "call", None))
+        self._stores[root] = out
+        return out
+
+    def phis(self, root):
+        if root in self._phis:
+            return self._phis[root]
+        df = self.dom_frontier()
+        work = [s[0] for s in self.root_stores(root) if s[0] in df]
+        ph = set()
+        seen = set(work)
+        while work:
+            b = work.pop()
+            for y in df.get(b, ()):
+                if y not in ph:
+                    ph.add(y)
+                    if y not in seen:
+                        seen.add(y)
+                        work.append(y)
+        self._phis[root] = ph
+        return ph
+
+    def version(self, root, bb, idx, depth):
+        """AV of mutable root read at (bb, idx)"""
+        t = self.root_type(root)
+        r = ty_range(t) or (-INF, INF)
+        stores = self.root_stores(root)
+        ph = self.phis(root)
+        idom = self.idom()
+        b = bb
+        first = True
+        while b is not None:
+            cands = [s for s in stores if s[0] == b and (not first or s[1] < idx)]
+            if cands:
+                s = max(cands, key=lambda s: s[1])
+                if s[2] == "rv" and depth > 0:
+                    v = self.rvalue(s[3], r, (s[0], s[1]), depth - 1)
+                    if v is not None:
+                        return v
+                return AV(r[0], r[1], {("ver", root, ("store", s[0], s[1])): 1}, 0)
+            if b in ph:
+                return AV(r[0], r[1], {("ver", root, ("phi", b)): 1}, 0)
+            first = False
+            b = idom.get(b)
+        return AV(r[0], r[1], {("ver", root, ("init",)): 1}, 0)
+
+    def root_type(self, root):
+        t = self.f.locals[root[1]]
+        if root[0] == "deref":
+            t = t.replace("&mut ", "").replace("&", "").strip()
+        return t
+
+    def is_mutable_local(self, l):
+        ds = self.defs.get(l, [])
+        return len(ds) > 1 or (len(ds) == 1 and 1 <= l <= self.f.nargs)
+
+    # ---------- values ----------
+    def value(self, op, pos=None, depth=16, at=None):
+        """AV of an operand; `pos` = (bb, idx) of the statement reading it (needed for mutable roots); `at` = block whose
+        dominating conditions may be used to tighten the interval"""
         if op is None:
             return None
         if op[0] == "k":
@@ -60,73 +204,102 @@ class Eval:
         pl = operand_place(op)
         if pl is None:
             return None
-        v = self.place_value(pl, depth, at)
-        if v is not None and at is not None and v.atom is not None:
+        v = self.place_value(pl, pos, depth, at)
+        if v is not None and at is not None and v.lin:
             v = self.refine(v, at)
         return v
 
-    def place_value(self, pl, depth, at=None):
+    def place_value(self, pl, pos, depth, at=None):
         l, proj = pl
         f = self.f
+        t = f.locals[l]
         if depth <= 0:
-            r = ty_range(f.locals[l]) if not proj else None
-            return AV(r[0], r[1], ("loc", l), 0) if r else None
+            r = ty_range(t) if not proj else None
+            return AV(r[0], r[1], {("loc", l): 1}, 0) if r else None
+        if proj == ["*"]:
+            inner = t.replace("&mut ", "").replace("&", "").strip()
+            if ty_range(inner) and pos is not None:
+                root = ("deref", self.ptr_root(l))
+                return self.version(root, pos[0], pos[1], depth)
+            return None
         ds = self.defs.get(l, [])
         if proj:
-            # (_t.0) of checked arithmetic
             if len(proj) == 1 and proj[0][0] == "f" and proj[0][1] == 0 and len(ds) == 1 and ds[0][0] == "stmt" and ds[0][3][0] == "bin" \
                     and ds[0][3][1].endswith("WithOverflow"):
-                return self.binop(ds[0][3][1][:3], ds[0][3][2], ds[0][3][3], None, depth - 1, exact=True, at=at)
+                return self.binop(ds[0][3][1][:3], ds[0][3][2], ds[0][3][3], None, (ds[0][1], ds[0][2]), depth - 1, exact=True, at=at)
             return None
-        t = f.locals[l]
         r = ty_range(t)
-        if len(ds) != 1:
-            # parameters and multiply-assigned locals: type range, symbolic root = the local itself
-            if r:
-                return AV(r[0], r[1], ("loc", l), 0)
+        if r is None:
             return None
+        if 1 <= l <= f.nargs and not ds:
+            return AV(r[0], r[1], {("ver", ("local", l), ("init",)): 1}, 0)
+        if self.is_mutable_local(l):
+            if pos is None:
+                return AV(r[0], r[1])
+            return self.version(("local", l), pos[0], pos[1], depth)
+        if not ds:
+            return AV(r[0], r[1], {("loc", l): 1}, 0)
         d = ds[0]
+        key = ("val", l, at)
+        if key in self._memo:
+            return self._memo[key]
         if d[0] == "call":
-            c = d[2]
-            n = c.name if c else ""
-            if n.endswith("<impl [T]>::len") or n.endswith("Vec::<T, A>::len") or n.endswith("str::len") or n.endswith("::len"):
-                base = self.root_of_ref(c.args[0]) if c.args else None
-                return AV(0, LEN_MAX, ("len", base) if base is not None else ("loc", l), 0)
-            if r:
-                return AV(r[0], r[1], ("loc", l), 0)
-            return None
-        rv = d[3]
+            v = self.call_value(l, d[2], r)
+        else:
+            v = self.rvalue(d[3], r, (d[1], d[2]), depth - 1, at, l)
+        self._memo[key] = v
+        return v
+
+    def ptr_root(self, l, depth=8):
+        while depth > 0:
+            depth -= 1
+            ds = self.defs.get(l, [])
+            if len(ds) != 1 or ds[0][0] != "stmt":
+                return l
+            rv = ds[0][3]
+            src = operand_place(rv[1]) if rv[0] == "use" else rv[2] if rv[0] in ("ref", "ptr") else operand_place(rv[2]) if rv[0] == "cast" else None
+            if src is None or src[1] not in ([], ["*"]):
+                return l
+            if not self.f.locals[src[0]].startswith("&"):
+                return l
+            l = src[0]
+        return l
+
+    def call_value(self, l, c, r):
+        n = c.name if c else ""
+        if n.endswith("mem::size_of"):
+            return AV(0, 2**32, {("sizeof", c.full): 1}, 0)
+        if n.endswith("<impl [T]>::len") or n.endswith("Vec::<T, A>::len") or n.endswith("str::len") or n.endswith("::len"):
+            base = self.root_of_ref(c.args[0]) if c.args else None
+            return AV(0, LEN_MAX, {("len", base) if base is not None else ("loc", l): 1}, 0)
+        return AV(r[0], r[1], {("loc", l): 1}, 0)
+
+    def rvalue(self, rv, r, pos, depth, at=None, l=None):
         k = rv[0]
+        opaque = AV(r[0], r[1], {("loc", l): 1}, 0) if l is not None else AV(r[0], r[1])
         if k == "use":
-            v = self.value(rv[1], depth - 1, at)
-            if v is None and r:
-                return AV(r[0], r[1], ("loc", l), 0)
-            return v
-        if k == "cast" and r:
-            v = self.value(rv[2], depth - 1, at)
+            v = self.value(rv[1], pos, depth, at)
+            return v if v is not None else opaque
+        if k == "cast":
+            v = self.value(rv[2], pos, depth, at)
             if v is None:
-                return AV(r[0], r[1], ("loc", l), 0)
+                return opaque
             if v.lo >= r[0] and v.hi <= r[1]:
-                return AV(v.lo, v.hi, v.atom, v.off)   # value preserving
-            return AV(r[0], r[1], ("loc", l), 0)
-        if k == "bin" and r:
-            v = self.binop(rv[1], rv[2], rv[3], r, depth - 1, at=at)
-            if v is not None:
-                if v.atom is None:
-                    v.atom, v.off = ("loc", l), 0
-                return v
-            return AV(r[0], r[1], ("loc", l), 0)
-        if k == "other" and "PtrMetadata" in str(rv[1]):
-            return AV(0, LEN_MAX, ("loc", l), 0)
+                return AV(v.lo, v.hi, v.lin, v.off)
+            return opaque
+        if k == "bin":
+            v = self.binop(rv[1], rv[2], rv[3], r, pos, depth, at=at)
+            if v is None:
+                return opaque
+            if not v.lin and l is not None and v.lo != v.hi:
+                v.lin, v.off = {("loc", l): 1}, 0
+            return v
         if k == "un" and rv[1] == "PtrMetadata":
             base = self.root_of_ref(rv[2])
-            return AV(0, LEN_MAX, ("len", base) if base is not None else ("loc", l), 0)
-        if r:
-            return AV(r[0], r[1], ("loc", l), 0)
-        return None
+            return AV(0, LEN_MAX, {("len", base) if base is not None else ("loc", l): 1}, 0)
+        return opaque
 
-    def root_of_ref(self, op, depth=8):
-        """canonical local of a slice/vec reference operand (through copies, reborrows, derefs)"""
+    def root_of_ref(self, op, depth=10):
         pl = operand_place(op)
         while pl is not None and depth > 0:
             depth -= 1
@@ -149,27 +322,33 @@ class Eval:
                 return l
         return None
 
-    def binop(self, op, a, b, r, depth, exact=False, at=None):
+    def binop(self, op, a, b, r, pos, depth, exact=False, at=None):
         op3 = op[:3]
-        va, vb = self.value(a, depth, at), self.value(b, depth, at)
+        va, vb = self.value(a, pos, depth, at), self.value(b, pos, depth, at)
         if va is None or vb is None:
             return None
         lo = hi = None
-        atom, off = None, 0
+        lin, off = None, 0
         if op3 == "Add":
             lo, hi = va.lo + vb.lo, va.hi + vb.hi
-            if vb.lo == vb.hi and va.atom:
-                atom, off = va.atom, va.off + vb.lo
-            elif va.lo == va.hi and vb.atom:
-                atom, off = vb.atom, vb.off + va.lo
+            if (va.lin or va.lo == va.hi) and (vb.lin or vb.lo == vb.hi):
+                lin = lin_add(va.lin, vb.lin)
+                off = (va.off if va.lin else va.lo) + (vb.off if vb.lin else vb.lo)
         elif op3 == "Sub":
             lo, hi = va.lo - vb.hi, va.hi - vb.lo
-            if vb.lo == vb.hi and va.atom:
-                atom, off = va.atom, va.off - vb.lo
+            if (va.lin or va.lo == va.hi) and (vb.lin or vb.lo == vb.hi):
+                lin = lin_add(va.lin, vb.lin, -1)
+                off = (va.off if va.lin else va.lo) - (vb.off if vb.lin else vb.lo)
         elif op3 == "Mul":
             c = [va.lo * vb.lo, va.lo * vb.hi, va.hi * vb.lo, va.hi * vb.hi]
             lo, hi = min(c), max(c)
-        elif op == "Shl" or op3 == "Shl":
+            if vb.lo == vb.hi and va.lin is not None:
+                lin = {k_: c_ * vb.lo for k_, c_ in va.lin.items()} if vb.lo else {}
+                off = va.off * vb.lo
+            elif va.lo == va.hi and vb.lin is not None:
+                lin = {k_: c_ * va.lo for k_, c_ in vb.lin.items()} if va.lo else {}
+                off = vb.off * va.lo
+        elif op3 == "Shl":
             if vb.lo == vb.hi and 0 <= vb.lo < 128 and va.lo >= 0:
                 lo, hi = va.lo << vb.lo, va.hi << vb.lo
         elif op3 == "Shr":
@@ -184,27 +363,29 @@ class Eval:
                 lo, hi = 0, (1 << m_.bit_length()) - 1
         elif op3 == "Rem":
             if vb.lo > 0 and va.lo >= 0:
-                lo, hi = 0, vb.hi - 1
+                lo, hi = 0, min(va.hi, vb.hi - 1)
         elif op3 == "Div":
             if vb.lo > 0 and va.lo >= 0:
                 lo, hi = va.lo // vb.hi, va.hi // vb.lo
         if lo is None:
             return AV(r[0], r[1]) if r else None
         if r and not exact and (lo < r[0] or hi > r[1]):
-            if op3 in ("Shl",):
-                return AV(r[0], r[1])
-            return AV(r[0], r[1])  # wrapped: unknown
-        return AV(lo, hi, atom, off)
+            return AV(r[0], r[1])  # may wrap: unknown
+        if lin is not None and not lin:
+            return AV(lo, hi)
+        return AV(lo, hi, lin, off)
 
     # ---------- dominating facts ----------
     def conditions_at(self, bb):
-        """list of (cmp_op, lhs_operand, rhs_operand, truth) for bool switches that dominate bb through exactly one arm"""
+        """(cmp, lhs AV, rhs AV, switch_bb) for bool switches that dominate bb through exactly one arm (normalised to truth)"""
         key = ("cond", bb)
         if key in self._memo:
             return self._memo[key]
+        self._memo[key] = []   # recursion guard
         f = self.f
         out = []
         dom = f.dominators().get(bb, set())
+        NEG = {"Lt": "Ge", "Le": "Gt", "Gt": "Le", "Ge": "Lt", "Eq": "Ne", "Ne": "Eq"}
         for s in dom:
             if s == bb:
                 continue
@@ -223,114 +404,181 @@ class Eval:
             pl = operand_place(t[1])
             if pl is None or pl[1]:
                 continue
-            k, p, neg = f.origin(pl[0])
+            l = pl[0]
+            neg = False
+            cmp_ = None
+            for _ in range(8):
+                ds = self.defs.get(l, [])
+                if len(ds) != 1:
+                    break
+                d = ds[0]
+                if d[0] == "call":
+                    c = d[2]
+                    if c is not None and c.name.endswith("::is_empty") and c.args:
+                        cmp_ = ("EMPTY", self.root_of_ref(c.args[0]), None, None)
+                    break
+                rv = d[3]
+                if rv[0] == "use" and operand_place(rv[1]) and not operand_place(rv[1])[1]:
+                    l = operand_place(rv[1])[0]
+                elif rv[0] == "un" and rv[1] == "Not" and operand_place(rv[2]) and not operand_place(rv[2])[1]:
+                    l = operand_place(rv[2])[0]
+                    neg = not neg
+                elif rv[0] == "bin" and rv[1] in NEG:
+                    cmp_ = (rv[1], rv[2], rv[3], (d[1], d[2]))
+                    break
+                else:
+                    break
+            if cmp_ is None:
+                continue
             if neg:
                 truth = not truth
-            if k == "rvalue" and p[0] == "bin" and p[1] in ("Lt", "Le", "Gt", "Ge", "Eq", "Ne"):
-                out.append((p[1], p[2], p[3], truth, s))
-            elif k == "call" and p is not None and (p.name.endswith("::is_empty")) and p.args:
-                base = self.root_of_ref(p.args[0])
-                out.append(("EMPTY", base, None, truth, s))
+            if cmp_[0] == "EMPTY":
+                out.append(("EMPTY" if truth else "NONEMPTY", cmp_[1], None, s))
+                continue
+            op, a, b, pos = cmp_
+            va, vb = self.value(a, pos), self.value(b, pos)
+            if va is None or vb is None:
+                continue
+            out.append((op if truth else NEG[op], va, vb, s))
         self._memo[key] = out
         return out
 
-    def no_redef_between(self, atom, cond_bb, use_bb):
-        if atom is None or atom[0] != "loc":
-            return True
-        l = atom[1]
-        ds = self.defs.get(l, [])
-        if len(ds) <= 1:
-            return True
-        f = self.f
-        fwd = f.reachable([cond_bb])
-        for d in ds:
-            dbb = d[1]
-            if dbb in fwd and dbb != cond_bb and use_bb in f.reachable([dbb]) and f.dominates(cond_bb, dbb):
-                return False
-        return True
-
     def refine(self, v, bb):
-        """tighten interval of v using dominating comparisons against constants / other values"""
-        if v is None:
-            return None
+        if v is None or not v.lin:
+            return v
         lo, hi = v.lo, v.hi
-        for op, a, b, truth, s in self.conditions_at(bb):
-            if op == "EMPTY":
-                if v.atom == ("len", a) and truth is False:
-                    lo = max(lo, 1 - v.off)
+        SW = {"Lt": "Gt", "Le": "Ge", "Gt": "Lt", "Ge": "Le", "Eq": "Eq", "Ne": "Ne"}
+        for op, va, vb, s in self.conditions_at(bb):
+            if op in ("EMPTY", "NONEMPTY"):
+                if op == "NONEMPTY" and v.lin == {("len", va): 1}:
+                    lo = max(lo, 1 + v.off)
                 continue
-            va, vb = self.value(a), self.value(b)
-            if va is None or vb is None:
-                continue
-            for (x, y, o) in ((va, vb, op), (vb, va, {"Lt": "Gt", "Le": "Ge", "Gt": "Lt", "Ge": "Le", "Eq": "Eq", "Ne": "Ne"}[op])):
-                if x.atom is None or x.atom != v.atom:
-                    continue
-                if not self.no_redef_between(x.atom, s, bb):
+            for (x, y, o) in ((va, vb, op), (vb, va, SW[op])):
+                if not x.lin or x.lin != v.lin:
                     continue
                 d = v.off - x.off      # v = x + d
-                oo = o if truth else {"Lt": "Ge", "Le": "Gt", "Gt": "Le", "Ge": "Lt", "Eq": "Ne", "Ne": "Eq"}[o]
-                if oo == "Lt":
+                if o == "Lt":
                     hi = min(hi, y.hi - 1 + d)
-                elif oo == "Le":
+                elif o == "Le":
                     hi = min(hi, y.hi + d)
-                elif oo == "Gt":
+                elif o == "Gt":
                     lo = max(lo, y.lo + 1 + d)
-                elif oo == "Ge":
+                elif o == "Ge":
                     lo = max(lo, y.lo + d)
-                elif oo == "Eq":
+                elif o == "Eq":
                     lo, hi = max(lo, y.lo + d), min(hi, y.hi + d)
-                elif oo == "Ne" and y.lo == y.hi:
+                elif o == "Ne" and y.lo == y.hi:
                     if lo == y.lo + d:
                         lo += 1
                     if hi == y.lo + d:
                         hi -= 1
-        return AV(lo, hi, v.atom, v.off)
+        return AV(lo, hi, v.lin, v.off)
+
+    def fixed_vec_len(self, root):
+        """n if `root` is a Vec created by vec![x; n] (from_elem) with constant n and never handed out as &mut Vec"""
+        if not isinstance(root, int):
+            return None
+        f = self.f
+        ds = self.defs.get(root, [])
+        if len(ds) != 1 or ds[0][0] != "call" or ds[0][2] is None or not ds[0][2].name.endswith("vec::from_elem"):
+            return None
+        c = ds[0][2]
+        n = self.value(c.args[1], (c.bb, 10**6)) if len(c.args) > 1 else None
+        if n is None or n.lo != n.hi:
+            return None
+        # any call that receives `&mut Vec` of this root (other than views) may change its length
+        for c2 in f.calls:
+            for a in c2.args:
+                pl = operand_place(a)
+                if pl is None or pl[1]:
+                    continue
+                if not f.locals[pl[0]].startswith("&mut std::vec::Vec"):
+                    continue
+                if self.root_of_ref(a) == root and not any(c2.name.endswith(x) for x in ("::deref_mut", "::index_mut", "::as_mut_slice", "::as_mut", "IndexMut<I>>::index_mut")):
+                    return None
+        return n.lo
+
+    def atom_bounds(self, atom, bb):
+        if atom[0] == "len":
+            n = self.fixed_vec_len(atom[1])
+            v = AV(n, n, {atom: 1}, 0) if n is not None else AV(0, LEN_MAX, {atom: 1}, 0)
+        elif atom[0] == "sizeof":
+            v = AV(0, 2**32, {atom: 1}, 0)
+        elif atom[0] == "ver":
+            r = ty_range(self.root_type(atom[1])) or (-INF, INF)
+            v = AV(r[0], r[1], {atom: 1}, 0)
+        elif atom[0] == "loc":
+            r = ty_range(self.f.locals[atom[1]]) or (-INF, INF)
+            ds = self.defs.get(atom[1], [])
+            v = AV(r[0], r[1], {atom: 1}, 0)
+            if len(ds) == 1 and ds[0][0] == "stmt":
+                v0 = self.rvalue(ds[0][3], r, (ds[0][1], ds[0][2]), 6)
+                if v0 is not None:
+                    v = AV(max(v.lo, v0.lo), min(v.hi, v0.hi), {atom: 1}, 0)
+        else:
+            v = AV(-INF, INF, {atom: 1}, 0)
+        return self.refine(v, bb)
 
     def diff_lower_bound(self, big, small, bb):
-        """best known lower bound of (big - small) for two symbolic values at block bb"""
-        best = None
+        """best known lower bound of (big - small) at block bb"""
         if big is None or small is None:
             return None
-        b2, s2 = self.refine(big, bb), self.refine(small, bb)
+        b2 = self.refine(big, bb)
+        s2 = self.refine(small, bb)
         best = b2.lo - s2.hi
-        if big.atom is None or small.atom is None:
+        if (big.lin is None and big.lo != big.hi) or (small.lin is None and small.lo != small.hi):
             return best
-        if big.atom == small.atom:
-            best = max(best, big.off - small.off)
-        for op, a, b, truth, s in self.conditions_at(bb):
-            if op == "EMPTY":
+        blin = big.lin or {}
+        slin = small.lin or {}
+        boff = big.off if big.lin else big.lo
+        soff = small.off if small.lin else small.lo
+        D = lin_add(blin, slin, -1)
+        doff = boff - soff
+        lb = doff
+        for a, c in D.items():
+            ab = self.atom_bounds(a, bb)
+            lb += c * (ab.lo if c > 0 else ab.hi)
+        best = max(best, lb)
+        for op, va, vb, s in self.conditions_at(bb):
+            if op in ("EMPTY", "NONEMPTY"):
                 continue
-            va, vb = self.value(a), self.value(b)
-            if va is None or vb is None or va.atom is None or vb.atom is None:
-                continue
-            if not (self.no_redef_between(va.atom, s, bb) and self.no_redef_between(vb.atom, s, bb)):
-                continue
-            oo = op if truth else {"Lt": "Ge", "Le": "Gt", "Gt": "Le", "Ge": "Lt", "Eq": "Ne", "Ne": "Eq"}[op]
-            # normalise to  Y - X >= k   with X = va, Y = vb (or swapped)
             cons = []
-            if oo == "Lt":
+            if op == "Lt":
                 cons.append((vb, va, 1))
-            elif oo == "Le":
+            elif op == "Le":
                 cons.append((vb, va, 0))
-            elif oo == "Gt":
+            elif op == "Gt":
                 cons.append((va, vb, 1))
-            elif oo == "Ge":
+            elif op == "Ge":
                 cons.append((va, vb, 0))
-            elif oo == "Eq":
+            elif op == "Eq":
                 cons.append((va, vb, 0))
                 cons.append((vb, va, 0))
             for Y, X, k in cons:
-                # Y - X >= k ;  Y = Yatom + Yoff, X = Xatom + Xoff  =>  Yatom - Xatom >= k - Yoff + Xoff
-                if Y.atom == big.atom and X.atom == small.atom:
-                    base = k - Y.off + X.off
-                    val = base + big.off - small.off
-                    best = val if best is None else max(best, val)
+                if (Y.lin is None and Y.lo != Y.hi) or (X.lin is None and X.lo != X.hi):
+                    continue
+                ylin, xlin = Y.lin or {}, X.lin or {}
+                yoff = Y.off if Y.lin else Y.lo
+                xoff = X.off if X.lin else X.lo
+                C = lin_add(ylin, xlin, -1)      # Y - X >= k  =>  C + (yoff - xoff) >= k
+                R = lin_add(D, C, -1)            # residual must be bounded below by intervals
+                lbr = doff - (yoff - xoff) + k
+                ok = True
+                for a, c in R.items():
+                    ab = self.atom_bounds(a, bb)
+                    bound = ab.lo if c > 0 else ab.hi
+                    if abs(bound) >= INF:
+                        ok = False
+                        break
+                    lbr += c * bound
+                if ok:
+                    best = max(best, lbr)
         return best
 
 
 # ---------------- discharge of panic sites ----------------
 def discharge_asserts(f):
-    """[(bb, kind, discharged, reason)] for every Assert terminator of f (kinds: bounds, overflow, overflow_neg, div_zero, rem_zero)"""
+    """[(bb, kind, discharged, reason, line)] for every Assert terminator of f"""
     ev = Eval(f)
     out = []
     for bb, b in enumerate(f.blocks):
@@ -340,9 +588,9 @@ def discharge_asserts(f):
         kind = t[3]
         k = kind[0]
         line = t[5]
+        pos = (bb, 10**6)
         if k == "bounds":
-            ln, ix = kind[1]["o"], kind[2]["o"]
-            vl, vi = ev.value(ln), ev.value(ix)
+            vl, vi = ev.value(kind[1]["o"], pos), ev.value(kind[2]["o"], pos)
             d = ev.diff_lower_bound(vl, vi, bb)
             ok = d is not None and d >= 1
             out.append((bb, "bounds", ok, "len - index >= %s" % d, line))
@@ -350,7 +598,7 @@ def discharge_asserts(f):
             opn = kind[1]
             a, b_ = kind[2], kind[3]
             r = ty_range(a["ty"])
-            va, vb = ev.value(a["o"], at=bb), ev.value(b_["o"], at=bb)
+            va, vb = ev.value(a["o"], pos, at=bb), ev.value(b_["o"], pos, at=bb)
             ok = False
             why = "%s %s %s in %s" % (va, opn, vb, a["ty"])
             if r and va is not None and vb is not None:
@@ -358,24 +606,25 @@ def discharge_asserts(f):
                     ok = va.hi + vb.hi <= r[1] and va.lo + vb.lo >= r[0]
                 elif opn == "Sub":
                     ok = va.lo - vb.hi >= r[0] and va.hi - vb.lo <= r[1]
-                    if not ok:
-                        d = ev.diff_lower_bound(ev.value(a["o"]), ev.value(b_["o"]), bb)
-                        if d is not None and d >= 0 and r[0] == 0:
+                    if not ok and r[0] == 0:
+                        d = ev.diff_lower_bound(ev.value(a["o"], pos), ev.value(b_["o"], pos), bb)
+                        if d is not None and d >= 0:
                             ok = True
                             why += " (a-b >= %d)" % d
                 elif opn == "Mul":
                     c = [va.lo * vb.lo, va.lo * vb.hi, va.hi * vb.lo, va.hi * vb.hi]
                     ok = min(c) >= r[0] and max(c) <= r[1]
                 elif opn in ("Shl", "Shr"):
-                    bits = {"u8": 8, "i8": 8, "u16": 16, "i16": 16, "u32": 32, "i32": 32, "u64": 64, "i64": 64, "usize": 64, "isize": 64, "u128": 128, "i128": 128}.get(a["ty"])
+                    bits = {"u8": 8, "i8": 8, "u16": 16, "i16": 16, "u32": 32, "i32": 32, "u64": 64, "i64": 64, "usize": 64,
+                            "isize": 64, "u128": 128, "i128": 128}.get(a["ty"])
                     ok = bits is not None and vb.lo >= 0 and vb.hi < bits
             out.append((bb, "overflow:" + opn, ok, why, line))
         elif k in ("div_zero", "rem_zero"):
-            v = ev.value(kind[1]["o"], at=bb)
+            v = ev.value(kind[1]["o"], pos, at=bb)
             ok = v is not None and (v.lo > 0 or v.hi < 0)
             out.append((bb, k, ok, "divisor %s" % v, line))
         elif k == "overflow_neg":
-            v = ev.value(kind[1]["o"], at=bb)
+            v = ev.value(kind[1]["o"], pos, at=bb)
             r = ty_range(kind[1]["ty"])
             ok = v is not None and r is not None and v.lo > r[0]
             out.append((bb, k, ok, "operand %s" % v, line))
@@ -384,48 +633,65 @@ def discharge_asserts(f):
     return out
 
 
-RANGE_INDEX = re.compile(r"slice::index::<impl (?:std|core)::ops::Index(?:Mut)?<(?:std|core)::ops::(Range|RangeTo|RangeFrom|RangeInclusive|RangeToInclusive)<usize>> for \[(\w+)\]>::index")
+RANGE_INDEX = re.compile(r"(?:slice::index::<impl (?:std|core)::ops::Index(?:Mut)?<(?:std|core)::ops::(Range|RangeTo|RangeFrom|RangeInclusive|RangeToInclusive)<usize>> for \[(\w+)\]>::index"
+                         r"|<std::vec::Vec<(\w+)> as std::ops::Index(?:Mut)?<std::ops::(Range|RangeTo|RangeFrom|RangeInclusive|RangeToInclusive)<usize>>>::index)")
+VEC_SCALAR_INDEX = re.compile(r"<std::vec::Vec<\w+> as std::ops::Index(?:Mut)?<usize>>::index")
+
+
+def range_operands(f, c):
+    mm = RANGE_INDEX.search(c.full)
+    if not mm or len(c.args) < 2:
+        return None
+    kind = mm.group(1) or mm.group(4)
+    rpl = operand_place(c.args[1])
+    lo_op = hi_op = None
+    pos = None
+    if rpl is not None and not rpl[1]:
+        ds = f.defs().get(rpl[0], [])
+        if len(ds) == 1 and ds[0][0] == "stmt" and ds[0][3][0] == "agg" and ds[0][3][1] == "adt":
+            ops = ds[0][3][4]
+            pos = (ds[0][1], ds[0][2])
+            if kind == "Range" and len(ops) == 2:
+                lo_op, hi_op = ops
+            elif kind == "RangeTo" and len(ops) == 1:
+                hi_op = ops[0]
+            elif kind == "RangeFrom" and len(ops) == 1:
+                lo_op = ops[0]
+    return kind, lo_op, hi_op, pos
 
 
 def discharge_range_index(f):
-    """slice[a..b] sites (calls to the slice Index impls for ranges): discharged when a <= b <= len is known"""
+    """slice[a..b] / vec[a..b] / vec[i] sites: discharged when a <= b <= len (resp. i < len) is known"""
     ev = Eval(f)
     out = []
     for c in f.calls:
-        mm = RANGE_INDEX.search(c.full)
-        if not mm:
+        if VEC_SCALAR_INDEX.search(c.full) and len(c.args) > 1:
+            base = ev.root_of_ref(c.args[0])
+            lenv = AV(0, LEN_MAX, {("len", base): 1}, 0)
+            vi = ev.value(c.args[1], (c.bb, 10**6))
+            d = ev.diff_lower_bound(lenv, vi, c.bb)
+            out.append((c.bb, "bounds:vec", d is not None and d >= 1, "len - index >= %s" % d, c.line))
             continue
-        kind = mm.group(1)
-        if len(c.args) < 2:
+        ro = range_operands(f, c)
+        if ro is None:
             continue
+        kind, lo_op, hi_op, pos = ro
         base = ev.root_of_ref(c.args[0])
-        lenv = AV(0, LEN_MAX, ("len", base), 0)
-        rpl = operand_place(c.args[1])
-        lo_op = hi_op = None
-        if rpl is not None and not rpl[1]:
-            ds = f.defs().get(rpl[0], [])
-            if len(ds) == 1 and ds[0][0] == "stmt" and ds[0][3][0] == "agg" and ds[0][3][1] == "adt":
-                ops = ds[0][3][4]
-                if kind == "Range" and len(ops) == 2:
-                    lo_op, hi_op = ops
-                elif kind == "RangeTo" and len(ops) == 1:
-                    hi_op = ops[0]
-                elif kind == "RangeFrom" and len(ops) == 1:
-                    lo_op = ops[0]
+        lenv = AV(0, LEN_MAX, {("len", base): 1}, 0)
         ok = False
         why = "range operands not resolved"
         if kind == "Range" and lo_op is not None and hi_op is not None:
-            vlo, vhi = ev.value(lo_op), ev.value(hi_op)
+            vlo, vhi = ev.value(lo_op, pos), ev.value(hi_op, pos)
             d1 = ev.diff_lower_bound(lenv, vhi, c.bb)
             d2 = ev.diff_lower_bound(vhi, vlo, c.bb)
             ok = d1 is not None and d1 >= 0 and d2 is not None and d2 >= 0
             why = "len-end >= %s, end-start >= %s" % (d1, d2)
         elif kind == "RangeTo" and hi_op is not None:
-            d1 = ev.diff_lower_bound(lenv, ev.value(hi_op), c.bb)
+            d1 = ev.diff_lower_bound(lenv, ev.value(hi_op, pos), c.bb)
             ok = d1 is not None and d1 >= 0
             why = "len-end >= %s" % d1
         elif kind == "RangeFrom" and lo_op is not None:
-            d1 = ev.diff_lower_bound(lenv, ev.value(lo_op), c.bb)
+            d1 = ev.diff_lower_bound(lenv, ev.value(lo_op, pos), c.bb)
             ok = d1 is not None and d1 >= 0
             why = "len-start >= %s" % d1
         out.append((c.bb, "range:" + kind, ok, why, c.line))
@@ -454,13 +720,12 @@ def discharge_unwraps(f):
                 p0 = operand_place(src.args[0]) if src.args else None
                 src = source_call(f, p0[0]) if p0 and not p0[1] else None
                 hops += 1
-            if src is not None and len(src.args) > 1:
-                rpl = operand_place(src.args[1])
-                ds = f.defs().get(rpl[0], []) if rpl and not rpl[1] else []
-                if len(ds) == 1 and ds[0][0] == "stmt" and ds[0][3][0] == "agg" and len(ds[0][3][4]) == 2:
-                    lo, hi = ds[0][3][4]
-                    d = ev.diff_lower_bound(ev.value(hi), ev.value(lo), c.bb)
-                    d2 = ev.diff_lower_bound(ev.value(lo), ev.value(hi), c.bb)
+            if src is not None:
+                ro = range_operands(f, src)
+                if ro and ro[0] == "Range" and ro[1] is not None and ro[2] is not None:
+                    lo, hi, pos = ro[1], ro[2], ro[3]
+                    d = ev.diff_lower_bound(ev.value(hi, pos), ev.value(lo, pos), c.bb)
+                    d2 = ev.diff_lower_bound(ev.value(lo, pos), ev.value(hi, pos), c.bb)
                     if d is not None and d2 is not None and d == N and d2 == -N:
                         ok = True
                         why = "slice of constant length %d converted to [u8; %d]" % (N, N)
